@@ -67,6 +67,23 @@ def gen_case(rng, tier):
             a = c01.gen_x0(rng, 'nz', shape, cplx)
             if not cplx and rng.random() < 0.2:
                 a = np.array(np.round(a) + (np.round(a) == 0), dtype=np.int64)
+            elif not cplx and rng.random() < 0.25:
+                # the other real dtypes NumPy promotes to float64 against a float polynomial: unsigned and narrow
+                # signed integers (incl. the most negative value), float32 (exactly representable values), bool
+                dt = rng.choice(['uint8', 'uint16', 'uint64', 'int8', 'int32', 'float32', 'bool'])
+                if dt == 'bool':
+                    a = np.array(np.round(np.abs(a)) % 2 == 1)
+                    if divisor:
+                        a = np.ones(a.shape, dtype=bool)
+                elif dt == 'float32':
+                    a = (np.round(a * 4) / 4 + (np.round(a * 4) == 0)).astype(np.float32)
+                elif dt.startswith('uint'):
+                    a = np.array(np.abs(np.round(a)) + (np.round(a) == 0), dtype=dt)
+                else:
+                    a = np.array(np.round(a) + (np.round(a) == 0), dtype=dt)
+                    if dt == 'int8' and a.size and rng.random() < 0.5:
+                        a.flat[0] = -128
+                return {'k': 'A', 'v': a, 'dt': dt}
             return {'k': 'A', 'v': a}
         sk = rng.choice(SCALARS)
         return {'k': 'S', 'sk': sk, 'v': mk_scalar(rng, sk)}
@@ -87,7 +104,7 @@ def obj(a):
     if a['k'] == 'U':
         return UTPM(np.array(a['v']))
     if a['k'] == 'A':
-        return np.array(a['v'])
+        return np.array(a['v'], dtype=a['dt']) if a.get('dt') else np.array(a['v'])
     v = a['v']
     sk = a.get('sk')
     if sk == 'int':
